@@ -500,6 +500,7 @@ class BlobWorld:
         clock.CLOCK.advance(1.0)
         self.labels.add('pack')
         self.packed_since = True
+        self.pack_tid = max(getattr(self, 'pack_tid', tid), tid)
         if len(list_blob_files(self.blob_dir)) < n_before:
             self.labels.add('pack-removed-blob-file')
             self.interesting = True
